@@ -1,7 +1,9 @@
 #!/usr/bin/env python3
-"""seedtest.py [ids...]: applies each seeded/<id>/patch.diff to /repo, runs the quick checks of the properties it breaks
-(or, for equivalent changes, a set of checks that must stay quiet), undoes it, and records the outcome in seeded/RESULTS.json."""
-import json, os, subprocess, sys, time
+"""seedtest.py [ids...]: applies each seeded/<id>/patch.diff to a scratch worktree of /repo (never to /repo itself), runs the
+quick checks of the properties it breaks (or, for equivalent changes, a set of checks that must stay quiet) against that
+worktree (VERIF_REPO), and records the outcome in seeded/RESULTS.json (SEED_RESULTS overrides the path).  Evidence and replays
+of these runs go to a scratch directory, not to /verif/evidence."""
+import json, os, subprocess, sys, time, tempfile, shutil
 V = os.path.dirname(os.path.dirname(os.path.abspath(__file__)))
 QUIET = ['C01', 'C03', 'C06', 'C17']
 def run(cmd, **kw):
@@ -9,33 +11,41 @@ def run(cmd, **kw):
 def main():
     ids = sys.argv[1:] or sorted(d for d in os.listdir(os.path.join(V, 'seeded')) if os.path.isdir(os.path.join(V, 'seeded', d)))
     tier = os.environ.get('SEED_TIER', 'quick')
-    res_path = os.path.join(V, 'seeded', 'RESULTS.json')
+    res_path = os.environ.get('SEED_RESULTS') or os.path.join(V, 'seeded', 'RESULTS.json')
     results = json.load(open(res_path)) if os.path.exists(res_path) else {}
-    assert run(['git', '-C', '/repo', 'status', '--porcelain']).stdout.strip() == '', '/repo is not clean'
-    for sid in ids:
-        d = os.path.join(V, 'seeded', sid)
-        meta = json.load(open(os.path.join(d, 'meta.json')))
-        props = meta['breaks'] or QUIET
-        a = run(['git', '-C', '/repo', 'apply', os.path.join(d, 'patch.diff')])
-        if a.returncode != 0:
-            print(sid, 'patch does not apply:', a.stderr[:200]); continue
-        out = {}
-        try:
-            for p in props:
-                t0 = time.time()
-                r = run(['python3', os.path.join(V, 'tools', 'check.py'), p, '--tier', tier], cwd=V)
-                lines = [l for l in r.stdout.split('\n') if l.startswith(('VIOLATION', 'INCONCLUSIVE', 'DIVERGENCE', 'KNOWN'))]
-                forms = sorted(set(l.split('formula ')[1].split(' ')[0] for l in r.stderr.split('\n') if 'formula ' in l))
-                out[p] = {'exit': r.returncode, 'violations': sum(1 for l in lines if l.startswith('VIOLATION')), 'formulas': forms,
-                          'divergences': sum(1 for l in lines if l.startswith('DIVERGENCE')), 'seconds': round(time.time() - t0)}
-                print(sid, p, out[p], flush=True)
-        finally:
-            run(['git', '-C', '/repo', 'checkout', '--', '.'])
-            run(['rm', '-rf', os.path.join(V, 'replays')])
-        expect = 1 if meta['breaks'] else 0
-        results[sid] = {'breaks': meta['breaks'], 'tier': tier, 'checks': out,
-                        'as_expected': all(o['exit'] == expect for o in out.values()) if not meta['breaks'] else any(o['exit'] == 1 for o in out.values())}
-        json.dump(results, open(res_path, 'w'), indent=1, sort_keys=True)
-    assert run(['git', '-C', '/repo', 'status', '--porcelain']).stdout.strip() == '', '/repo left dirty'
+    base = tempfile.mkdtemp(prefix='verif-seed-', dir=os.environ.get('VERIF_SCRATCH', '/var/tmp'))
+    wt = os.path.join(base, 'repo')
+    a = run(['git', '-C', '/repo', 'worktree', 'add', '--detach', wt, 'HEAD'])
+    assert a.returncode == 0, a.stderr
+    env = dict(os.environ, VERIF_REPO=wt, VERIF_EVIDENCE_DIR=os.path.join(base, 'evidence'), VERIF_REPLAY_DIR=os.path.join(base, 'replays'))
+    try:
+        for sid in ids:
+            d = os.path.join(V, 'seeded', sid)
+            meta = json.load(open(os.path.join(d, 'meta.json')))
+            props = [p for p in (os.environ.get('SEED_PROPS') or '').split(',') if p] or meta['breaks'] or QUIET
+            a = run(['git', '-C', wt, 'apply', os.path.join(d, 'patch.diff')])
+            if a.returncode != 0:
+                print(sid, 'patch does not apply:', a.stderr[:200]); continue
+            out = {}
+            try:
+                for p in props:
+                    t0 = time.time()
+                    r = run(['python3', os.path.join(V, 'tools', 'check.py'), p, '--tier', tier], cwd=V, env=env)
+                    lines = [l for l in r.stdout.split('\n') if l.startswith(('VIOLATION', 'INCONCLUSIVE', 'DIVERGENCE', 'KNOWN'))]
+                    forms = sorted(set(l.split('formula ')[1].split(' ')[0] for l in r.stderr.split('\n') if 'formula ' in l))
+                    out[p] = {'exit': r.returncode, 'violations': sum(1 for l in lines if l.startswith('VIOLATION')), 'formulas': forms,
+                              'divergences': sum(1 for l in lines if l.startswith('DIVERGENCE')), 'seconds': round(time.time() - t0),
+                              'inconclusive': [l[:160] for l in lines if l.startswith('INCONCLUSIVE')][:3]}
+                    print(sid, p, out[p], flush=True)
+            finally:
+                run(['git', '-C', wt, 'checkout', '--', '.'])
+                run(['git', '-C', wt, 'clean', '-fdq'])
+            expect = 1 if meta['breaks'] else 0
+            results[sid] = {'breaks': meta['breaks'], 'tier': tier, 'checks': out,
+                            'as_expected': all(o['exit'] == expect for o in out.values()) if not meta['breaks'] else any(o['exit'] == 1 for o in out.values())}
+            json.dump(results, open(res_path, 'w'), indent=1, sort_keys=True)
+    finally:
+        run(['git', '-C', '/repo', 'worktree', 'remove', '--force', wt])
+        shutil.rmtree(base, ignore_errors=True)
 if __name__ == '__main__':
     main()
